@@ -39,14 +39,17 @@ def _plans(tier):
         return [("close", lc.plan(1, [1], FUK, "none", [98]), 3, 1),
                 ("ids", lc.plan(2, [1], ["F", "M"], "dep", [98]), 2, 1),
                 ("uni", lc.plan(1, [1], UNI, "dep", [98, 99], empty=False), 4, 1),
-                ("stub", lc.plan(1, [], [], "none", [105]), 2, 1)]
+                ("stub", lc.plan(1, [], [], "none", [105]), 2, 1),
+                # one heartbeat prunes a buried channel and a stale stub together, in both id orders
+                ("mixed", lc.plan(2, [1, 2], ["X"], "none", [106], empty=False), 2, 1)]
     return [("close", lc.plan(2, [1], FUK, "none", [98, 99], empty=False), 3, 1),
             ("close-deep", lc.plan(1, [1], FUK, "dep", [98]), 3, 2),
             ("uni", lc.plan(1, [1], ["F", "U", "V", "S", "H", "L"], "dep", [98, 100]), 4, 1),
             ("uni-streamed", lc.plan(1, [1], UNI, "dep", [98, 99], mode="streamed", empty=False), 4, 1),
             ("two", lc.plan(2, [1, 2], ["F", "M"], "none", [98, 99], empty=False), 4, 1),
             ("stub", lc.plan(2, [], [], "none", [105]), 2, 1),
-            ("stub-deep", lc.plan(1, [], [], "none", [105]), 3, 2)]
+            ("stub-deep", lc.plan(1, [], [], "none", [105]), 3, 2),
+            ("mixed", lc.plan(2, [1, 2], ["F", "M"], "dep", [106], empty=False), 2, 1)]
 
 
 def _model_consts(tier):
@@ -57,11 +60,15 @@ def _model_consts(tier):
             "MaxH": 6 if quick else 9}
 
 
-def _violation(inv, reqs, where, plan, extra=None):
-    key = lc.classify(inv, reqs)
-    what = ("%s on the real implementation (%s): %s" % (
-        "a ready channel disappeared while the reference says it must be kept" if inv == "C15a"
-        else "a channel appeared with an id at or below a forgotten one",
+TEXT = {"C15a": "a ready channel disappeared while the reference says it must be kept",
+        "C15b": "a channel appeared with an id at or below a forgotten one",
+        "C15r": "a signer restored from the store does not have the running signer's channels"}
+
+
+def _violation(inv, reqs, where, plan, extra=None, detail=None, msg=""):
+    key = lc.classify(inv, reqs, detail)
+    what = ("%s%s on the real implementation (%s): %s" % (
+        TEXT[inv], (" [%s %s]" % (detail, msg)) if detail else "",
         where, " ; ".join(lc.req_str(r) for r in reqs)))
     rp = {"kind": "lifecycle-seq", "plan": plan, "requests": reqs, "invariant": inv, "expect": key}
     if extra:
@@ -117,7 +124,8 @@ def run(pid, tier):
     # ---- leg B: implementation state graphs
     tot_nodes = tot_edges = tot_product = tot_gen = 0
     exercised = {"pruned_ready_edges": 0, "pruned_stub_edges": 0, "kept_forgotten_edges": 0, "kept_at_depth_Dm1": 0,
-                 "refused_new": 0, "aborts": 0, "restart_unequal_states": 0}
+                 "refused_new": 0, "aborts": 0, "restart_unequal_states": 0, "restart_bad_states": 0,
+                 "restore_fails_states": 0, "mixed_prune_edges": 0, "mixed_prune_stub_above_edges": 0}
     for name, pl, maxshort, maxbury in _plans(tier):
         ex = lc.explore(binpath, name, pl, maxshort, maxbury, threads=8 if quick else 12)
         r = lc.impl_tlc(ex)
@@ -133,6 +141,9 @@ def run(pid, tier):
             "pruned_ready_edges": rep["pruned_ready_edges"], "pruned_stub_edges": rep["pruned_stub_edges"],
             "kept_forgotten_edges": rep["kept_forgotten_edges"], "kept_at_depth_D_minus_1": rep["kept_at_depth_Dm1"],
             "refused_new": rep["refused_new"], "restart_unequal_states": rep["restart_unequal_states"],
+            "restart_judged_states": rep["nodes"], "restart_bad_states": rep["restart_bad_states"],
+            "restore_fails_states": rep["restore_fails_states"], "mixed_prune_edges": rep["mixed_prune_edges"],
+            "mixed_prune_stub_above_edges": rep["mixed_prune_stub_above_edges"],
             "product_states": r["distinct"], "product_transitions": r["states"], "violated": r["violated"],
             "wall_s": round(r["wall_s"] + ex["wall_s"], 1)}
         tot_nodes += rep["nodes"]
@@ -149,7 +160,11 @@ def run(pid, tier):
         if r["violated"]:
             reqs = lc.cex_requests(r["trace"])
             for inv in r["violated"]:
-                violations.append(_violation(inv, reqs, leg, pl))
+                detail, msg = None, ""
+                if inv == "C15r":
+                    row = ex["rows"][lc.cex_state(r["trace"])["node"]]
+                    detail, msg = lc.restart_detail(row["pre"], row["rs"]), row["rs"].get("msg", "")
+                violations.append(_violation(inv, reqs, leg, pl, detail=detail, msg=msg))
         if not samples:
             for row in ex["rows"]:
                 if len(row["p"]) >= 5 and any(c["ph"] == "ready" and c["fg"] for c in row["pre"]["chans"]):
@@ -160,7 +175,8 @@ def run(pid, tier):
                                                          for e in row["e"]]})
                     break
     # vacuity of leg B: the situations the property talks about must have been exercised on the real code
-    for k in ("pruned_ready_edges", "pruned_stub_edges", "kept_at_depth_Dm1", "refused_new"):
+    for k in ("pruned_ready_edges", "pruned_stub_edges", "kept_at_depth_Dm1", "refused_new", "mixed_prune_edges",
+              "mixed_prune_stub_above_edges"):
         if exercised[k] == 0 and not violations:
             raise vlib.ToolError("leg B never exercised %s" % k)
 
@@ -191,7 +207,8 @@ def run(pid, tier):
         e = steps[max(0, min(n, len(steps)) - 1)]
         reqs = [s["req"] for s in steps if s["seq"] == e["seq"] and s["step"] <= e["step"]]
         for inv in tr["violated"]:
-            violations.append(_violation(inv, reqs, "C_sim_replay", pl))
+            detail = lc.restart_detail(e["post"], e["rs"]) if inv == "C15r" else None
+            violations.append(_violation(inv, reqs, "C_sim_replay", pl, detail=detail, msg=e["rs"].get("msg", "")))
     if seqs:
         samples.append({"simulated_behaviour": [lc.req_str(r) for r in seqs[0]]})
 
